@@ -1687,6 +1687,9 @@ C20_CONNECT = [
     _conn("reject", willQoS=3), _conn("reject", willQoS=-1),
     _conn("accept", version=["@v31"], clientId="x" * 23), _conn("reject", version=["@v31"], clientId="x" * 24),
     _conn("accept", version=["@v311"], clientId="x" * 24), _conn("accept", version=["@v31"], clientId=""),
+    # the limit is in characters: 23 of them may take more than 23 bytes
+    _conn("accept", version=["@v31"], clientId="a" * 22 + "\u00e9"), _conn("accept", version=["@v31"], clientId="\u00fc" * 23),
+    _conn("reject", version=["@v31"], clientId="\u00fc" * 24),
     _conn("reject", version=0), _conn("reject", version=["@none"]), _conn("reject", version=["@dict", [["level", 5], ["tag", "MQTT"]]]),
     _conn("reject", version=["@dict", [["level", 4], ["tag", "MQIsdp"]]]),
     _conn("reject", willTopic="w"), _conn("reject", willMessage="m"),
@@ -1953,6 +1956,7 @@ class C16(SessionProp):
             pool = c16_pool(cfg["profile"], cfg["version"], state_i)
             ops = list(C16_STATES[state_i][1])
             extra = T_MIX.decode(ws)
+            held = None
             for kind, x, y, z in items:
                 if kind == 0:
                     fr = pool[x % len(pool)]
@@ -1963,9 +1967,20 @@ class C16(SessionProp):
                     fr = bytes([x, len(z) & 0x7F]) + z
                 else:
                     fr = z
-                ops.append(("raw", 0, fr.hex()))
+                # some frames share a TCP segment with the one that follows: what comes behind a packet that
+                # makes the client abort is still in the buffer
+                if (y >> 4) & 1 and held is not None:
+                    held += fr
+                    continue
+                if held is not None:
+                    ops.append(("raw", 0, held.hex()))
+                held = fr
                 if extra and (y & 3) == 0:
+                    ops.append(("raw", 0, held.hex()))
+                    held = None
                     ops.append(extra.pop())
+            if held is not None:
+                ops.append(("raw", 0, held.hex()))
             return (cfg, ops + C16_TAIL)
         items = st.lists(st.tuples(st.integers(0, 3), st.integers(0, 255), st.integers(0, 10 ** 6), st.binary(max_size=12)), min_size=1, max_size=5)
         return st.builds(mk, rude_cfg(), st.integers(0, len(C16_STATES) - 1), items, G.words(4))
